@@ -1040,3 +1040,218 @@ theorem spell_parse_keyword (c : Depth) (hc : c.cur < c.max) (lead : Bytes) (hle
       simp only [hp, show ((110 : UInt8) == 116 || (110 : UInt8) == 102) = false by decide, beq_self_eq_true,
         Bool.false_eq_true, if_false, if_true, null, exact_prefix kwNull ctx]
       rfl
+
+/-! ## integers through the dispatcher (the reference look-ahead) -/
+
+theorem digit_not_ws (d : UInt8) (h : isDigit d = true) : isWsEol d = false ∧ d ≠ 37 := by
+  have key : ∀ n : Fin 256, isDigit (UInt8.ofNat n.val) = true →
+      isWsEol (UInt8.ofNat n.val) = false ∧ UInt8.ofNat n.val ≠ 37 := by decide +kernel
+  have := key ⟨d.toNat, d.toNat_lt⟩
+  simp only [UInt8.ofNat_toNat] at this
+  exact this h
+
+
+/-- `RealP` on sign ++ digits ++ context when no '.' follows: an integer-valued real -/
+theorem real_nodot_spec (sg : Sign) (ds ctx : Bytes) (hne : ds ≠ [])
+    (hds : ∀ y ∈ ds, isDigit y = true)
+    (hctx : ∀ y, ctx.head? = some y → isDigit y = false ∧ y ≠ 46)
+    (hfit : digitsVal ds 0 ≤ i128Max) :
+    realP (sg.bytes ++ ds ++ ctx) 0 =
+      (.ok ⟨(sg.apply (digitsVal ds 0), 1), 0, sg.bytes.length + ds.length⟩, sg.bytes.length + ds.length) := by
+  unfold realP
+  have hs : signPrefix (sg.bytes ++ ds ++ ctx) 0 = (decide (sg = .minus), sg.bytes.length) := by
+    rw [List.append_assoc]
+    apply signPrefix_spec
+    intro y hy
+    cases ds with
+    | nil => exact absurd rfl hne
+    | cons d t =>
+      simp only [List.cons_append, List.head?_cons, Option.some.injEq] at hy
+      subst hy
+      have := hds d (List.mem_cons_self)
+      simp only [isDigit, Bool.and_eq_true, decide_eq_true_eq] at this
+      constructor
+      · intro h; subst h; exact absurd this.1 (by decide)
+      · intro h; subst h; exact absurd this.1 (by decide)
+  rw [hs]
+  simp only
+  rw [allowed_append isDigit sg.bytes ds ctx hds (fun y hy => (hctx y hy).1)]
+  simp only
+  have hemp : ds.isEmpty = false := by cases ds <;> simp_all
+  have hp : (peek (sg.bytes ++ ds ++ ctx) (sg.bytes.length + ds.length) == some 46) = false := by
+    have := peek_append (sg.bytes ++ ds) ctx
+    simp only [List.length_append] at this
+    rw [this]
+    cases ctx with
+    | nil => rfl
+    | cons y t => have := (hctx y rfl).2; simp [this]
+  simp only [hemp, Bool.false_and, Bool.false_eq_true, if_false, accDigits_eq _ _ _ hfit, hp]
+  cases sg <;> simp [Sign.apply]
+
+/-- **`parseInternal_int`**: an integer token followed by the end of the buffer or by a byte that
+    is not whitespace, not a comment, not a digit and not '.', — e.g. any delimiter — is an
+    `Integer` (the reference look-ahead fails at its first step). -/
+theorem parseInternal_int (el : Elem) (cur : Nat) (sg : Sign) (ds ctx : Bytes) (hne : ds ≠ [])
+    (hds : ∀ y ∈ ds, isDigit y = true)
+    (hctx : ∀ y, ctx.head? = some y → isDigit y = false ∧ y ≠ 46 ∧ isWsEol y = false ∧ y ≠ 37)
+    (hfit : digitsVal ds 0 ≤ i64Max) :
+    parseInternal el cur (sg.bytes ++ ds ++ ctx) 0 =
+      ((.ok (.int (sg.apply (digitsVal ds 0))), sg.bytes.length + ds.length), cur) := by
+  have h128 : digitsVal ds 0 ≤ i128Max := by
+    have : i64Max ≤ i128Max := by decide
+    omega
+  -- the first byte is a sign or a digit
+  obtain ⟨c0, hc0, hcls⟩ : ∃ c0, peek (sg.bytes ++ ds ++ ctx) 0 = some c0 ∧
+      (isDigit c0 = true ∨ c0 = 45 ∨ c0 = 43) := by
+    cases sg with
+    | none =>
+      cases ds with
+      | nil => exact absurd rfl hne
+      | cons d t => exact ⟨d, rfl, Or.inl (hds d (List.mem_cons_self))⟩
+    | plus => exact ⟨43, rfl, Or.inr (Or.inr rfl)⟩
+    | minus => exact ⟨45, rfl, Or.inr (Or.inl rfl)⟩
+  have hdisp : ∀ c0 : UInt8, (isDigit c0 = true ∨ c0 = 45 ∨ c0 = 43) →
+      (c0 == 116 || c0 == 102) = false ∧ (c0 == 110) = false ∧ (c0 == 40) = false ∧ (c0 == 37) = false ∧
+      (c0 == 47) = false ∧ (c0 == 91) = false ∧ (c0 == 60) = false ∧
+      (!(isDigit c0 || c0 == 45 || c0 == 43 || c0 == 46)) = false := by
+    intro c0 h
+    rcases h with h | h | h
+    · simp only [isDigit, Bool.and_eq_true, decide_eq_true_eq] at h
+      have h1 := h.1; have h2 := h.2
+      refine ⟨?_, ?_, ?_, ?_, ?_, ?_, ?_, ?_⟩ <;>
+        first
+          | (simp only [isDigit, h1, h2, decide_true, Bool.and_self, Bool.true_or, Bool.not_true])
+          | (apply Bool.eq_false_iff.mpr; intro hh
+             simp only [Bool.or_eq_true, beq_iff_eq] at hh
+             first
+               | (rcases hh with hh | hh <;> (subst hh; revert h1 h2; decide))
+               | (subst hh; revert h1 h2; decide))
+    · subst h; decide
+    · subst h; decide
+  obtain ⟨d1, d2, d3, d4, d5, d6, d7, d8⟩ := hdisp c0 hcls
+  unfold parseInternal
+  simp only [hc0, d1, d2, d3, d4, d5, d6, d7, d8, Bool.false_eq_true, if_false]
+  unfold numberOrRef
+  rw [real_nodot_spec sg ds ctx hne hds (fun y hy => ⟨(hctx y hy).1, (hctx y hy).2.1⟩) h128]
+  simp only
+  have hrange : (!((1 : Nat) == 1 && decide (-(2 ^ 63 : Int) ≤ sg.apply (digitsVal ds 0)) &&
+      decide (sg.apply (digitsVal ds 0) ≤ (2 ^ 63 - 1 : Int)))) = false := by
+    have e63 : (2 : Int) ^ 63 = 9223372036854775808 := by decide
+    have : (digitsVal ds 0 : Int) ≤ 9223372036854775807 := by
+      have h := hfit; unfold i64Max at h; omega
+    cases sg <;> simp [Sign.apply, e63] <;> omega
+  simp only [hrange, Bool.false_eq_true, if_false]
+  -- the look-ahead: no whitespace follows
+  have hws : wsEOL false (sg.bytes ++ ds ++ ctx) (sg.bytes.length + ds.length) =
+      (.err .guard, sg.bytes.length + ds.length) := by
+    rw [wsEOL_eq false _ _ (by simp)]
+    have hd : (sg.bytes ++ ds ++ ctx).drop (sg.bytes.length + ds.length) = ctx := by
+      have : sg.bytes.length + ds.length = (sg.bytes ++ ds).length := by simp
+      rw [this, List.drop_left]
+    rw [hd]
+    have : skipWs ctx = 0 := by
+      cases ctx with
+      | nil => rfl
+      | cons y t =>
+        have := hctx y rfl
+        simp [skipWs, this.2.2.1, this.2.2.2]
+    simp [this]
+  rw [hws]
+
+/-- **`spell_parse_int`**: every spelling of an integer in the i64 range (sign, leading zeros),
+    after any whitespace/comment run, followed by the end of the buffer or a delimiter-like byte,
+    parses through `parse_pdf_obj` to exactly that integer. -/
+theorem spell_parse_int (c : Depth) (hc : c.cur < c.max) (lead : Bytes) (hlead : WsRun lead)
+    (sg : Sign) (ds ctx : Bytes) (hne : ds ≠ []) (hds : ∀ y ∈ ds, isDigit y = true)
+    (hctx : ∀ y, ctx.head? = some y → isDigit y = false ∧ y ≠ 46 ∧ isWsEol y = false ∧ y ≠ 37)
+    (hfit : digitsVal ds 0 ≤ i64Max) :
+    parseObj c (lead ++ (sg.bytes ++ ds ++ ctx)) 0 =
+      ((.ok ⟨.int (sg.apply (digitsVal ds 0)), lead.length, lead.length + (sg.bytes.length + ds.length)⟩,
+        lead.length + (sg.bytes.length + ds.length)), c) := by
+  apply parseObj_token c hc lead _ hlead
+  · intro y hy
+    cases sg with
+    | none =>
+      cases ds with
+      | nil => exact absurd rfl hne
+      | cons d t =>
+        simp only [Sign.bytes, List.nil_append, List.cons_append, List.head?_cons, Option.some.injEq] at hy
+        subst hy
+        exact digit_not_ws _ (hds _ (List.mem_cons_self))
+    | plus => simp [Sign.bytes] at hy; subst hy; decide
+    | minus => simp [Sign.bytes] at hy; subst hy; decide
+  · exact parseInternal_int _ _ sg ds ctx hne hds hctx hfit
+
+/-- first-byte dispatch facts for a byte that starts a number -/
+theorem number_first_byte (c0 : UInt8) (h : isDigit c0 = true ∨ c0 = 45 ∨ c0 = 43 ∨ c0 = 46) :
+    (c0 == 116 || c0 == 102) = false ∧ (c0 == 110) = false ∧ (c0 == 40) = false ∧ (c0 == 37) = false ∧
+    (c0 == 47) = false ∧ (c0 == 91) = false ∧ (c0 == 60) = false ∧
+    (!(isDigit c0 || c0 == 45 || c0 == 43 || c0 == 46)) = false ∧ isWsEol c0 = false ∧ c0 ≠ 37 := by
+  have key : ∀ n : Fin 256, (isDigit (UInt8.ofNat n.val) = true ∨ UInt8.ofNat n.val = 45 ∨ UInt8.ofNat n.val = 43 ∨
+      UInt8.ofNat n.val = 46) →
+      ((UInt8.ofNat n.val == 116 || UInt8.ofNat n.val == 102) = false ∧ (UInt8.ofNat n.val == 110) = false ∧
+       (UInt8.ofNat n.val == 40) = false ∧ (UInt8.ofNat n.val == 37) = false ∧
+       (UInt8.ofNat n.val == 47) = false ∧ (UInt8.ofNat n.val == 91) = false ∧ (UInt8.ofNat n.val == 60) = false ∧
+       (!(isDigit (UInt8.ofNat n.val) || UInt8.ofNat n.val == 45 || UInt8.ofNat n.val == 43 ||
+          UInt8.ofNat n.val == 46)) = false ∧ isWsEol (UInt8.ofNat n.val) = false ∧ UInt8.ofNat n.val ≠ 37) := by
+    decide +kernel
+  have := key ⟨c0.toNat, c0.toNat_lt⟩
+  simp only [UInt8.ofNat_toNat] at this
+  exact this h
+
+/-- **`parseInternal_real`**: sign, digits, '.', at least one fraction digit, then anything that
+    does not continue the digits: a `Real` with numerator = all the digits, denominator = 10^k. -/
+theorem parseInternal_real (el : Elem) (cur : Nat) (sg : Sign) (ds fs ctx : Bytes) (hfne : fs ≠ [])
+    (hds : ∀ y ∈ ds, isDigit y = true) (hfs : ∀ y ∈ fs, isDigit y = true)
+    (hctx : ∀ y, ctx.head? = some y → isDigit y = false)
+    (hfit : digitsVal (ds ++ fs) 0 ≤ i128Max) (hden : 10 ^ fs.length ≤ i128Max) :
+    parseInternal el cur (sg.bytes ++ ds ++ [46] ++ fs ++ ctx) 0 =
+      ((.ok (.real (sg.apply (digitsVal (ds ++ fs) 0)) (10 ^ fs.length)),
+        sg.bytes.length + ds.length + 1 + fs.length), cur) := by
+  obtain ⟨c0, hc0, hcls⟩ : ∃ c0, peek (sg.bytes ++ ds ++ [46] ++ fs ++ ctx) 0 = some c0 ∧
+      (isDigit c0 = true ∨ c0 = 45 ∨ c0 = 43 ∨ c0 = 46) := by
+    cases sg with
+    | none =>
+      cases ds with
+      | nil => exact ⟨46, rfl, Or.inr (Or.inr (Or.inr rfl))⟩
+      | cons d t => exact ⟨d, rfl, Or.inl (hds d (List.mem_cons_self))⟩
+    | plus => exact ⟨43, rfl, Or.inr (Or.inr (Or.inl rfl))⟩
+    | minus => exact ⟨45, rfl, Or.inr (Or.inl rfl)⟩
+  obtain ⟨d1, d2, d3, d4, d5, d6, d7, d8, -, -⟩ := number_first_byte c0 hcls
+  unfold parseInternal
+  simp only [hc0, d1, d2, d3, d4, d5, d6, d7, d8, Bool.false_eq_true, if_false]
+  unfold numberOrRef
+  rw [real_spec sg ds fs ctx hds hfs hctx hfit hden]
+  simp only
+  have hk : 1 ≤ fs.length := List.length_pos_iff.mpr hfne
+  have hd1 : ((10 ^ fs.length == 1) = false) := by
+    have : 10 ≤ 10 ^ fs.length := by
+      calc 10 = 10 ^ 1 := by decide
+        _ ≤ 10 ^ fs.length := Nat.pow_le_pow_right (by decide) hk
+    simp; omega
+  simp [hd1]
+
+/-- **`spell_parse_real`**: every spelling of a real with at least one fraction digit. -/
+theorem spell_parse_real (c : Depth) (hc : c.cur < c.max) (lead : Bytes) (hlead : WsRun lead)
+    (sg : Sign) (ds fs ctx : Bytes) (hfne : fs ≠ [])
+    (hds : ∀ y ∈ ds, isDigit y = true) (hfs : ∀ y ∈ fs, isDigit y = true)
+    (hctx : ∀ y, ctx.head? = some y → isDigit y = false)
+    (hfit : digitsVal (ds ++ fs) 0 ≤ i128Max) (hden : 10 ^ fs.length ≤ i128Max) :
+    parseObj c (lead ++ (sg.bytes ++ ds ++ [46] ++ fs ++ ctx)) 0 =
+      ((.ok ⟨.real (sg.apply (digitsVal (ds ++ fs) 0)) (10 ^ fs.length), lead.length,
+          lead.length + (sg.bytes.length + ds.length + 1 + fs.length)⟩,
+        lead.length + (sg.bytes.length + ds.length + 1 + fs.length)), c) := by
+  apply parseObj_token c hc lead _ hlead
+  · intro y hy
+    have hcls : isDigit y = true ∨ y = 45 ∨ y = 43 ∨ y = 46 := by
+      cases sg with
+      | none =>
+        cases ds with
+        | nil => simp [Sign.bytes] at hy; exact Or.inr (Or.inr (Or.inr hy.symm))
+        | cons d t =>
+          simp [Sign.bytes] at hy; subst hy; exact Or.inl (hds _ (List.mem_cons_self))
+      | plus => simp [Sign.bytes] at hy; exact Or.inr (Or.inr (Or.inl hy.symm))
+      | minus => simp [Sign.bytes] at hy; exact Or.inr (Or.inl hy.symm)
+    have := number_first_byte y hcls
+    exact ⟨this.2.2.2.2.2.2.2.2.1, this.2.2.2.2.2.2.2.2.2⟩
+  · exact parseInternal_real _ _ sg ds fs ctx hfne hds hfs hctx hfit hden
